@@ -340,6 +340,33 @@ def run(ctx, config='rel-all'):
     nu = check_unchecked_layouts(ctx, db, config, 'R5')
     nf = check_rawvec_failure_atomicity(ctx, db, config, 'R6')
     ctx.floor('R6', nf, 1, 'fallible RawVec functions checked for failure atomicity')
+    # ---- R7 RawVec::allocate_in hands out a buffer-less vector (dangling pointer) with the requested capacity only when the byte
+    # size was computed with a check that succeeded AND is zero: an overflowing capacity must not take the "nothing to allocate" arm
+    if config != 'rel-default':
+        bs = [b for b in db.fn_bodies() if b['kind'] == 'assoc_fn' and (b['meta'].get('impl_adt') or '').endswith('raw_vec::RawVec') and b['meta'].get('name') == 'allocate_in']
+        if not bs:
+            ctx.anchor_missing('R7', 'RawVec::allocate_in')
+        for b in bs:
+            I, r = arena.run_fn(ctx, b['id'], config)
+            fn = arena.short(b['id'])
+            P = field_of(r.ret, 'ptr') if r.ret is not None and r.ret[0] == 'agg' else None
+            if P is None or r.ret_state is None:
+                ctx.violation('R7', fn, 'shape', 'allocate_in does not return a RawVec aggregate', b.get('span'))
+                continue
+            cap = ('param', 1)
+            nd = 0
+            for t, fs in arena.alternatives(I, P, set(r.ret_state.facts)):
+                if not (t[0] == 'app' and t[1] == 'dangling'):
+                    continue
+                nd += 1
+                zero = any(f[0] == 'eq' and C(0) in f[1:] and any(cap in subterms(x) for x in f[1:] if isinstance(x, tuple)) for f in fs) or \
+                    any(f[0] == 'eq' and C(0) in f[1:] and any(x == sym('sizeof(T)') for x in f[1:]) for f in fs)
+                checked = any((f[0] == 'nooverflow' and f[1] == 'mul') or (f[0] == 'is' and f[2] in ('Some', 'Ok') and any(isinstance(x, tuple) and x[:2] in (('app', 'checked_mul'), ('app', 'layout_array')) for x in subterms(f[1]))) for f in fs)
+                if zero and checked:
+                    ctx.ok('R7', '%s: the buffer-less arm is taken only for a checked byte size of zero' % fn, 'must-facts of the dangling alternative')
+                else:
+                    ctx.violation('R7', fn, 'dangling-without-zero-size', '%s can return a RawVec with the requested capacity and no buffer on a path where the byte size is not known to be a successfully checked zero (an overflowing capacity would be accepted)' % fn, b.get('span'))
+            ctx.floor('R7', nd, 1, 'buffer-less return alternatives of RawVec::allocate_in')
     ctx.floor('R5', nu, 7, 'unchecked Layout construction sites')
     # ---- R4 the arena's own size check: a huge (but valid) Layout must be refused by the bumping function, i.e. the
     # bumped pointer is proved to stay inside [data, old finger] with the block below the old finger (shared with C01.O2)
